@@ -110,7 +110,7 @@ CLAIMS = {
         "design_ref": "DESIGN.md section 6 C17",
     },
     'C18': {
-        "text": 'Edge iff a gate with exactly those two operands (any kind, any order), other statements contribute nothing, accepted iff every gate has 1 or 2 operands, >= 3 operands refused, node set (any element type, closed). Exhaustive placements on 4 qubits and random circuits.',
+        "text": 'Edge iff a gate with exactly those two operands (any kind, any order), other statements contribute nothing, accepted iff every gate has 1 or 2 operands, >= 3 operands refused, node set (any element type, closed); the graph as a function of the circuit (GraphMoreP): the edge list is exactly the operand pairs of the two-operand gates in circuit order with multiplicity, composes over concatenation, is relabelled edge by edge when the circuit is mapped, its multiset is independent of statement order, and merging single-qubit gates leaves it untouched (any numeric instance, closed). Exhaustive placements on 4 qubits and random circuits.',
         "note": "Trusted: Coq kernel (coqc, full .vo build; axioms printed per theorem, only those of the standard library's Reals where R is used), extraction with ExtrOcamlBasic/ExtrOcamlString only, the hand-written OCaml float dictionary (IEEE doubles + glibc libm stand in for R in the executable model) and driver, the Python serializer/comparator. Modelled, not verified: numpy, CPython float formatting/rounding, libqasm, quantify-scheduler, networkx. networkx modelled as an edge set.",
         "technique": 'Coq 8.16.1 proof over an executable Gallina model; model tied to /repo by extraction to OCaml run against the implementation on generated inputs (correspondence) and, for tables/constants, by a translator (tables, constants, numeric kernels) whose output is proved equal to the model; independent numpy oracle searches for failing inputs',
         "design_ref": "DESIGN.md section 6 C18",
